@@ -16,7 +16,13 @@ class Counter:
         self.c[oid] = self.c.get(oid, 0) + 1
 
 
+class CloseFailed(OSError):
+    """What a handler's iterable raises from close() when its clean-up fails."""
+
+
 class GenC:
+    closefail = False
+
     """Iterator with a close() counter."""
 
     def __init__(self, items, oid, ctr, mk):
@@ -34,6 +40,8 @@ class GenC:
 
     def close(self):
         self.ctr.hit(self.oid)
+        if self.closefail:
+            raise CloseFailed('clean-up failed')
 
 
 class GenN:
@@ -58,9 +66,13 @@ class FileC(io.BytesIO):
         super().__init__(data)
         self.oid, self.ctr = oid, ctr
 
+    closefail = False
+
     def close(self):
         self.ctr.hit(self.oid)
         super().close()
+        if self.closefail:
+            raise CloseFailed('clean-up failed')
 
 
 class FileN:
@@ -128,9 +140,13 @@ def concretise(prog, ctr):
         if t == 'list':
             return [mk_item(i) for i in o['items']]
         if t == 'gen':
-            return (GenC if o['closeable'] else GenN)(o['items'], o['id'], ctr, mk_item)
+            g = (GenC if o['closeable'] else GenN)(o['items'], o['id'], ctr, mk_item)
+            g.closefail = bool(o.get('closefail'))
+            return g
         if t == 'file':
-            return FileC(b'f' * o['n'], o['id'], ctr) if o['closeable'] else FileN(b'f' * o['n'])
+            f = FileC(b'f' * o['n'], o['id'], ctr) if o['closeable'] else FileN(b'f' * o['n'])
+            f.closefail = bool(o.get('closefail'))
+            return f
         if t == 'resp':
             return HTTPResponse(mk(o['body']), o['code'])
         if t == 'err':
@@ -229,7 +245,10 @@ def serve(prog, env, extra_status=None, rewrite=False, oneshot=False, cookie=Non
                     part = b''
                 body += part
         finally:
-            out.close()
+            try:
+                out.close()
+            except CloseFailed:          # the server closing what it was given: the response is already out
+                pass
         obs['sent'] = len(body)
     except AssertionError as e:      # wsgiref.validate found a PEP 3333 violation
         obs['wf'] = False
@@ -372,9 +391,11 @@ def rand_prog(rng, depth=0):
         if k == 'list':
             return {'t': 'list', 'items': [i for i in items() if i['t'] in ('estr', 'ebytes', 'str', 'bytes')]}
         if k == 'gen':
-            return {'t': 'gen', 'items': items(), 'closeable': rng.random() < 0.7, 'id': 5}
+            cl_ = rng.random() < 0.7
+            return {'t': 'gen', 'items': items(), 'closeable': cl_, 'closefail': cl_ and rng.random() < 0.25, 'id': 5}
         if k == 'file':
-            return {'t': 'file', 'n': rng.choice([0, 3, 100000]), 'closeable': rng.random() < 0.7, 'id': 7}
+            cl_ = rng.random() < 0.7
+            return {'t': 'file', 'n': rng.choice([0, 3, 100000]), 'closeable': cl_, 'closefail': cl_ and rng.random() < 0.25, 'id': 7}
         if k == 'resp':
             return {'t': 'resp', 'code': rng.choice([100, 101, 102, 103, 199, 200, 201, 204, 299, 301, 304, 404, 418, 500, 599]), 'body': out(d + 1)}
         return {'t': 'err', 'code': rng.choice([400, 404, 418, 500, 503])}
